@@ -24,7 +24,8 @@ RULE = (
 ASSUMPTIONS = [
     "crash = process death (kill -9): what the kernel already has survives; power loss / unsynced page cache is out of scope",
     "regular files only (no symlinks or hard links to targets); operations are serial at Python-call granularity",
-    "faults are the errno values of DESIGN.md table 3.5; a partial write leaves a prefix of the data",
+    "faults are the errno values of DESIGN.md table 3.5; a partial write leaves a prefix of the data; a short write (raw handles only) accepts a prefix and reports the count without an error",
+    "a file is 'rejected' if the reference run of the same tree rejects it or if the harness planted the reason (unparseable text, a per-file section naming a rule that does not exist)",
     "fixed(t) is taken from the fault-free sequential run of the same tree (differential oracle)",
 ]
 REAL_COMPONENTS = ["vsg.__main__.main and everything below it (argument parsing, configuration, tokenizer, classifier, rules, fix, write_vhdl_file, shutil.copystat)", "pickle transport of pool tasks/results", "kernel tmpfs file system", "forked worker processes"]
